@@ -411,6 +411,28 @@ func (mbox *MailboxView) Idle(w *imapserver.UpdateWriter, stop <-chan struct{}) 
 	return mbox.tracker.Idle(w, stop)
 }
 
+// pendingCopy is a message about to be copied to another mailbox, with its
+// mutable metadata captured while the source mailbox was locked.
+type pendingCopy struct {
+	msg     *message
+	options imap.AppendOptions
+}
+
+// snapshot returns the messages selected by numSet.
+func (mbox *MailboxView) snapshot(numSet imap.NumSet) []pendingCopy {
+	var l []pendingCopy
+	mbox.forEach(numSet, func(seqNum uint32, msg *message) {
+		l = append(l, pendingCopy{
+			msg: msg,
+			options: imap.AppendOptions{
+				Time:  msg.t,
+				Flags: msg.flagList(),
+			},
+		})
+	})
+	return l
+}
+
 func (mbox *MailboxView) forEach(numSet imap.NumSet, f func(seqNum uint32, msg *message)) {
 	mbox.mutex.Lock()
 	defer mbox.mutex.Unlock()
